@@ -22,8 +22,10 @@
 (* The module contains                                                     *)
 (*   - the table and the property over *abstract outcomes* of root fields, *)
 (*   - the case space (all mode pairs x operation kinds x subsets of field *)
-(*     kinds x schema flavours x entry points x document shapes) and the   *)
-(*     abstract document of each case (printed by the harness),            *)
+(*     kinds x schema flavours x entry points x the two ways of setting    *)
+(*     the request-level mode (on the Request / by an extension's          *)
+(*     prepare_request hook) x document shapes) and the abstract document  *)
+(*     of each case (printed by the harness),                              *)
 (*   - an implementation-shaped model of how the two executors treat a     *)
 (*     root field (QueryRoot::resolve_field, Schema::execute_once,         *)
 (*     dynamic collect_fields / collect_streams) with the deviations of    *)
@@ -43,7 +45,8 @@ CONSTANTS MaxKinds,        \* largest number of field kinds mixed in one unwrapp
           MaxKindsWrapped, \* the same for documents whose root selections sit inside a fragment
           Wraps,           \* subset of {"none", "inline", "typed", "spread"}
           Orders,          \* subset of {"fwd", "rev"}
-          Aliases          \* subset of BOOLEAN
+          Aliases,         \* subset of BOOLEAN
+          HookWraps        \* wrappers for which the request-level mode is also set by an extension hook
 VARIABLE c
 
 ----------------------------------------------------------------------------
@@ -62,6 +65,9 @@ QueryOnlyKinds == MetaKinds \cup {"_entities"}           \* fields that exist on
 Ops == {"query", "mutation", "subscription"}
 Flavours == {"static", "dynamic"}
 ViaOf(op) == IF op = "subscription" THEN {"stream"} ELSE {"execute", "stream"}
+\* how the request-level mode reaches the executor: set on the Request itself (Request::disable_introspection /
+\* only_introspection), or by an extension in its prepare_request hook (the documented place to rewrite a request)
+RVias == {"request", "hook"}
 
 \* On the query root every mix of kinds is a valid document.  On the other roots the query-only kinds are
 \* invalid; they are kept as single probes and as probes next to an ordinary field.
@@ -75,10 +81,11 @@ ValidCase(x) ==
   /\ x.kinds \in KindChoices(x.op)
   /\ Cardinality(x.kinds) <= (IF x.wrap = "none" THEN MaxKinds ELSE MaxKindsWrapped)
   /\ (x.order = "rev" => Cardinality(x.kinds) > 1)
+  /\ (x.rvia = "hook" => x.wrap \in HookWraps)
 \* The space is enumerated in two levels so that TLC's workers share it: a seed fixes the cell of the table,
 \* the operation kind and the schema flavour; one step completes it to a case.
 Seeds == [s : Modes, r : Modes, op : Ops, flavour : Flavours]
-CasesOf(seed) == {x \in [s : {seed.s}, r : {seed.r}, op : {seed.op}, flavour : {seed.flavour}, via : ViaOf(seed.op),
+CasesOf(seed) == {x \in [s : {seed.s}, r : {seed.r}, op : {seed.op}, flavour : {seed.flavour}, via : ViaOf(seed.op), rvia : RVias,
                          kinds : KindChoices(seed.op), wrap : Wraps, order : Orders, alias : Aliases] : ValidCase(x)}
 IsCase(x) == "kinds" \in DOMAIN x
 
@@ -154,8 +161,7 @@ BelowResolvers(op, kind) ==
   CASE kind = "nested"    -> {Entry("nested", NestedType(root) \o "." \o OrdinaryOf(NestedType(root)))}
     [] kind = "_entities" -> {Entry("nested", TS.entity.type \o "." \o TS.entity.field)}
     [] OTHER -> {}
-\* Below the root the dynamic executor applies its IntrospectionOnly check again (collect_fields answers null), so a
-\* root resolver that runs by deviation does not drag the resolvers below it along.
+\* Below the root the executors apply the IntrospectionOnly check again.
 ResolversOf(x, kind) ==
   TopResolver(x.op, kind) \cup (IF ResolversAllowed(x.s, x.r) THEN BelowResolvers(x.op, kind) ELSE {})
 
@@ -171,13 +177,12 @@ ResolversOf(x, kind) ==
 (* Deviations of today's code (named switches, see known_findings/C19.json):                        *)
 (*   DevStaticServiceIgnoresDisabled  QueryRoot::resolve_field serves _service without looking at   *)
 (*                                    the Disabled modes                                            *)
-(*   DevDynSubscriptionIgnoresOnly    dynamic collect_streams never looks at the modes              *)
-(*   DevDynEntitiesIgnoresOnly        dynamic collect_fields runs the entity resolver in the        *)
-(*                                    "metadata allowed" branch, before the IntrospectionOnly check *)
+(*   (fixed in /repo f9aca34, switches removed: dynamic subscription resolvers and the dynamic      *)
+(*    entity resolver ran under IntrospectionOnly)                                                  *)
 (*   DevStaticEmptyMutationTypename   Schema::execute_once substitutes the EmptyMutation root under *)
 (*                                    IntrospectionOnly, so mutation { __typename } answers         *)
 (*                                    "EmptyMutation", a type that is not in the schema             *)
-Devs == {"DevStaticServiceIgnoresDisabled", "DevDynSubscriptionIgnoresOnly", "DevDynEntitiesIgnoresOnly", "DevStaticEmptyMutationTypename"}
+Devs == {"DevStaticServiceIgnoresDisabled", "DevStaticEmptyMutationTypename"}
 
 \* validation: query-only fields do not exist on the other roots; a dynamic schema registers the
 \* introspection fields only when its mode is not Disabled (Registry::create_introspection_types in
@@ -211,10 +216,10 @@ DynamicOutcome(x, kind, dev) ==
       res  == ResolversAllowed(x.s, x.r)
   IN IF InvalidField(x, kind) THEN "invalid"
      ELSE IF x.op = "subscription" THEN                                                           \* dynamic/subscription.rs collect_streams
-            IF kind \in {"ordinary", "nested"} /\ (res \/ "DevDynSubscriptionIgnoresOnly" \in dev) THEN "resolve" ELSE "skip"
+            IF kind \in {"ordinary", "nested"} /\ res THEN "resolve" ELSE "skip"
      ELSE IF kind = "__typename" THEN "typename"                                                  \* dynamic/resolve.rs collect_fields
      ELSE IF x.op = "query" /\ meta /\ kind \in MetaKinds THEN "meta"
-     ELSE IF x.op = "query" /\ meta /\ kind = "_entities" /\ (res \/ "DevDynEntitiesIgnoresOnly" \in dev) THEN "resolve"
+     ELSE IF x.op = "query" /\ meta /\ kind = "_entities" /\ res THEN "resolve"
      ELSE IF ~res THEN "null"
      ELSE IF kind \in {"ordinary", "nested"} THEN "resolve"
      ELSE "skip"                                      \* introspection / federation names are not fields of the dynamic Object
@@ -257,12 +262,6 @@ Trigger(d, x, ef) ==
   CASE d = "DevStaticServiceIgnoresDisabled" ->
          x.flavour = "static" /\ x.op = "query" /\ HasKindExec(x, ef, "_service")
          /\ ~MetadataAllowed(x.s, x.r) /\ ResolversAllowed(x.s, x.r)
-    [] d = "DevDynSubscriptionIgnoresOnly" ->
-         x.flavour = "dynamic" /\ x.op = "subscription" /\ ~ResolversAllowed(x.s, x.r)
-         /\ (HasKindExec(x, ef, "ordinary") \/ HasKindExec(x, ef, "nested"))
-    [] d = "DevDynEntitiesIgnoresOnly" ->
-         x.flavour = "dynamic" /\ x.op = "query" /\ HasKindExec(x, ef, "_entities")
-         /\ ~ResolversAllowed(x.s, x.r) /\ MetadataAllowed(x.s, x.r)
     [] d = "DevStaticEmptyMutationTypename" ->
          x.flavour = "static" /\ x.op = "mutation" /\ HasKindExec(x, ef, "__typename") /\ ~ResolversAllowed(x.s, x.r)
 
@@ -294,6 +293,6 @@ ModelChecked ==
 
 Init == c \in Seeds
 Next == ~IsCase(c) /\ c' \in CasesOf(c)
-Emit == IsCase(c) => PrintT(<<"REPLAY", ToJson([s |-> c.s, r |-> c.r, op |-> c.op, flavour |-> c.flavour, via |-> c.via, wrap |-> c.wrap,
+Emit == IsCase(c) => PrintT(<<"REPLAY", ToJson([s |-> c.s, r |-> c.r, op |-> c.op, flavour |-> c.flavour, via |-> c.via, rvia |-> c.rvia, wrap |-> c.wrap,
                                   order |-> c.order, alias |-> c.alias, kinds |-> KindSeq(c), doc |-> DocOf(c)])>>)
 =============================================================================
